@@ -368,8 +368,9 @@ def stepCore (cfg : Cfg) (g : GState) : Op → R (GState × Out)
     noPrepared g.s
     match g.s.frames, g.marks with
     | .scopedAligned cp outer :: rest, m :: ms =>
-      let s' ← resetTo cfg g.s cp
-      pure ({ s := killFrom { s' with frames := rest, minAlign := outer } m, marks := ms }, .unit)
+      -- the guard was created from the OUTER handle: its `reset_to` runs with the outer MIN_ALIGN
+      let s' ← resetTo cfg { g.s with minAlign := outer } cp
+      pure ({ s := killFrom { s' with frames := rest } m, marks := ms }, .unit)
     | _, _ => throw (.contract "scopedAlignedExit without matching enter")
   | .withSettings n ga claimable => do
     noFrames g.s; noPrepared g.s
